@@ -215,7 +215,7 @@ func extMutexLock(fr *frame, args []value) value {
 // sync object obj.
 func (fr *frame) yieldPoint(obj interface{}) {
 	if fr.visible() {
-		fr.i.ps.sched.park(&pendingOp{kind: opResume, obj: obj, site: fr.i.ps.siteOf(fr)})
+		fr.i.ps.sched.park(&pendingOp{kind: opResume, obj: obj, fr: fr})
 	}
 }
 
